@@ -354,7 +354,11 @@ def fn_groups(items):
                             continue
                         n += 1
                         try:
-                            v = st.entropy(fmt_arg(fmt, A, N))
+                            arg = fmt_arg(fmt, A, N)
+                            arg0 = arg.copy() if isinstance(arg, np.ndarray) else list(arg)
+                            v = st.entropy(arg)
+                            if not (np.array_equal(arg, arg0) if isinstance(arg, np.ndarray) else list(arg) == arg0):
+                                acc.add('C08/entropy/argument-modified/format=%s' % fmt_class(fmt), '%s: entropy(%r) [format %s] changed its region argument into %r' % (_desc(N, lst, signs, r), arg0, fmt, arg))
                         except Exception as e:
                             acc.add('C08/entropy/raises-%s/format=%s' % (type(e).__name__, fmt_class(fmt)),
                                     '%s: entropy(%r) [format %s] raised %s: %s' % (_desc(N, lst, signs, r), fmt_arg(fmt, A, N), fmt, type(e).__name__, e))
@@ -648,8 +652,13 @@ def fn_torch(items):
                     else:
                         arg = fmt_arg(fmt, A, N)
                     n += 1
+                    arg0 = arg.clone() if fmt == 'booltensor' else (arg.copy() if isinstance(arg, np.ndarray) else list(arg))
                     try:
                         f = _num(st.entropy(arg))
+                        same_arg = bool((arg == arg0).all()) if fmt == 'booltensor' else (np.array_equal(arg, arg0) if isinstance(arg, np.ndarray) else list(arg) == arg0)
+                        if not same_arg:
+                            acc.add('C08/torch/entropy/argument-modified/format=%s' % (fmt if fmt in ('boolmask', 'booltensor') else 'indices'),
+                                    'torchclifford %s: entropy(%r) [format %s] changed its region argument into %r' % (_desc(N, lst, signs, r), arg0, fmt, arg))
                     except Exception as e:
                         acc.add('C08/torch/entropy/format=%s/raises-%s' % (fmt if fmt in ('boolmask', 'booltensor') else 'indices', type(e).__name__),
                                 'torchclifford %s: entropy(%r) [format %s] raised %s: %s' % (
